@@ -1,5 +1,6 @@
 import SnootyVerif.Drv.Util
 import SnootyVerif.Model.Man
+import SnootyVerif.Model.ManScoped
 open Lean
 namespace SnootyVerif.Drv.C19
 open SnootyVerif.Drv SnootyVerif.Man
@@ -66,7 +67,15 @@ def renderOp (old : Bool) (j : Json) : Except String Json := do
   let up ← upOf j
   let name := (← str j "name").toList
   let sec := (← str j "section").toList
-  pure (result (if old then renderOld up name sec a else render up name sec a))
+  -- optional: strings produced by the REAL troff_escape, read back by the model's `unesc`
+  let escaped : List String := match j.getObjValAs? (Array String) "escaped" with
+    | .ok xs => xs.toList
+    | .error _ => []
+  let back := escaped.map fun e => match unesc e.toList with
+    | some t => Json.str (String.ofList t)
+    | none => Json.null
+  let r := result (if old then renderOld up name sec a else render up name sec a)
+  pure (r.setObjVal! "scoped" (Json.bool (a.scoped false)) |>.setObjVal! "unesc" (Json.arr back.toArray))
 
 def escapeOp (j : Json) : Except String Json := do
   let s := (← str j "s").toList
